@@ -883,9 +883,10 @@ static void run_kendall_big(Ctx& ctx, bool T) {
 // Spearman's rho and Kendall's tau depend only on the two orders: the value for the mapped data must equal the reference of
 // the plain pair (sign flipped once per decreasing map), within the usual rounding tolerance (the library is also expected to
 // return identical bits; that is counted, not judged).  Pearson's r is invariant under positive scaling, but its moment
-// formula squares the data and multiplies the two variances: it is judged only where x^2, y^2, the variances and their
-// product stay inside [1e-290, 1e290] (which excludes the units 2^+-540, 2^+-1000 and 2^+-300 on both samples) and where
-// the condition-aware tolerance is meaningful (< 1e-3); outside that range the outcome is only counted.
+// formula squares the data: it is judged wherever x^2, y^2, the sums of squares and the two variances EACH stay inside
+// [1e-290, 1e290] (this includes the units 2^+-300 on both samples: the product of the variances may leave the range;
+// it excludes the units 2^+-540, 2^+-1000 and the 1e+-300 scales, whose squares are not representable) and where the
+// condition-aware tolerance is meaningful (< 1e-3); outside that range the outcome is only counted.
 static void run_corr_units(Ctx& ctx, bool T) {
     if (!ctx.wants("corr.units")) return;
     const char* TYN[3] = {"pearson", "spearman", "kendall"};
@@ -941,7 +942,9 @@ static void run_corr_units(Ctx& ctx, bool T) {
                                 }
                                 const ld vx = n * qx - sx * sx, vy = n * qy - sy * sy;
                                 auto inr = [](ld v) { return fabsl(v) >= 1e-290L && fabsl(v) <= 1e290L; };
-                                judged = inr(mxx) && inr(myy) && inr(vx) && inr(vy) && inr(vx * vy) && inr(qx * qy);
+                                // each square and each variance representable; the product of the two variances need not be
+                                // (r = cov / (sqrt(vx) sqrt(vy)) is well defined whenever the two factors are)
+                                judged = inr(mxx) && inr(myy) && inr(qx) && inr(qy) && inr(vx) && inr(vy);
                                 ref = judged ? pearson_ref(x, y) : 0;
                                 tol = judged ? 16 * EPS * n * pearson_kappa(x, y) : 0;
                                 if (judged && !(tol < 1e-3)) judged = false;
